@@ -757,6 +757,68 @@ theorem runFrom_at (tx : List TOp) : ∀ (rest : List TOp) (i : Nat) (w w' : WSt
         exact ⟨w, w1, hp, h1⟩
     · cases h
 
+/-- every instruction of a committed transaction was accepted on some reached state (no invariant attached) -/
+theorem runFrom_reached (tx : List TOp) : ∀ (rest : List TOp) (i : Nat) (w w' : WState), tx.drop i = rest →
+    WState.runFrom tx i rest w = some w' →
+    ∀ (j : Nat) (t : TOp), i ≤ j → tx[j]? = some t → ∃ (wj wj' : WState), wj.stepIn tx j t = some wj' := by
+  intro rest
+  induction rest with
+  | nil =>
+    intro i w w' hd h j t hij hj
+    have hlen : tx.length ≤ i := by
+      rcases Nat.lt_or_ge i tx.length with h1 | h1
+      · have : (tx.drop i).length = tx.length - i := List.length_drop
+        rw [hd] at this; simp at this; omega
+      · exact h1
+    have : j < tx.length := by
+      rcases Nat.lt_or_ge j tx.length with h1 | h1
+      · exact h1
+      · rw [List.getElem?_eq_none h1] at hj; cases hj
+    omega
+  | cons op rest ih =>
+    intro i w w' hd h j t hij hj
+    obtain ⟨hti, hd'⟩ := drop_cons_facts hd
+    simp only [WState.runFrom] at h
+    split at h
+    · rename_i w1 h1
+      rcases Nat.lt_or_ge i j with hlt | hge
+      · exact ih (i + 1) w1 w' hd' h j t (by omega) hj
+      · have : j = i := by omega
+        subst this
+        rw [hti] at hj
+        injection hj with hj
+        subst hj
+        exact ⟨w, w1, h1⟩
+    · cases h
+
+/-- a deposit of a committed transaction ran, and succeeded, on some reached state -/
+theorem tx_deposit_ran {w w' : WState} {tx : List TOp} (h : w.runTx tx = some w')
+    {i ai bi signer : Nat} {amount : Int} {upTo : Bool} (hi : tx[i]? = some (.ix (.deposit ai bi signer amount upTo))) :
+    ∃ (wi : WState) (a : AcctV) (b : WBank) (o : Out), wi.accts[ai]? = some a ∧ wi.banks[bi]? = some b ∧
+      deposit (wi.ctx a b signer b.v.liquidityVault 0) amount upTo = .ok o := by
+  obtain ⟨wi, wi', hst⟩ := runFrom_reached tx tx 0 w w' rfl h i _ (Nat.zero_le _) hi
+  simp only [WState.stepIn, WState.step?] at hst
+  split at hst
+  · rename_i a b ha hb
+    split at hst
+    · rename_i o ho; exact ⟨wi, a, b, o, ha, hb, ho⟩
+    · cases hst
+  · cases hst
+
+/-- … and so did a borrow -/
+theorem tx_borrow_ran {w w' : WState} {tx : List TOp} (h : w.runTx tx = some w')
+    {i ai bi signer : Nat} {amount : Int} (hi : tx[i]? = some (.ix (.borrow ai bi signer amount))) :
+    ∃ (wi : WState) (a : AcctV) (b : WBank) (o : Out), wi.accts[ai]? = some a ∧ wi.banks[bi]? = some b ∧
+      borrow (wi.ctx a b signer b.v.liquidityVault 0) amount = .ok o := by
+  obtain ⟨wi, wi', hst⟩ := runFrom_reached tx tx 0 w w' rfl h i _ (Nat.zero_le _) hi
+  simp only [WState.stepIn, WState.step?] at hst
+  split at hst
+  · rename_i a b ha hb
+    split at hst
+    · rename_i o ho; exact ⟨wi, a, b, o, ha, hb, ho⟩
+    · cases hst
+  · cases hst
+
 /-- **a borrow inside a committed transaction is backed by an initial-margin check**: either the borrow's own (the account was
     not in a flash loan: the check ran on the state the borrow left), or the one of the account's end_flashloan further down
     the same transaction (which ran on the state the whole bracket left) -/
